@@ -150,7 +150,7 @@ def run_case(ctx, st, log, case, choosers):
 def run(ctx):
     st = msolve.install(ctx, owner="C02", brute_cap=1 << 13, smt=False, judge_exc=False)
     log = standin.WireLog()
-    n = 350 if ctx.tier == "quick" else 9000
+    n = 500 if ctx.tier == "quick" else 9000
     rng = ctx.rng
     fixed = fixed_cases()
     for k, case in enumerate(fixed):
